@@ -36,9 +36,9 @@ CHECKS = {
     ),
     "C11": dict(
         category="proof",
-        text="Lean 4 theorems for every finitely supported law and every order, about a hand-written model of utils/statistics.py and of the two tail-bound formulas of cli/actions/goals_action.py: central_correct (raw_moments_to_centrals = E(X-EX)^k for all k >= 2, binomial theorem), central_order_one + central_counterexample (at k = 1 the code returns the mean: known finding F8), cumulant_correct / cumulant_recursion_correct (raw_moments_to_cumulants satisfies the moment-cumulant recursion at every order) with cumulant_is_log_mgf (that recursion is M' = K'M in Q[[t]], i.e. K = log M) and kappa_1..4 corollaries, markov / markov_min (every listed bound E(M^k)/a^k and the printed minimum dominate P(M >= a) for M >= 0, a > 0), second_moment_lower ((EM-a)^2/E(M-a)^2 <= P(M > a) when M - a >= 0, Cauchy-Schwarz). Tie to the code is differential and sampled: the two Python functions on random rational/symbolic raw-moment vectors of order <= 10 versus the compiled model and, on moments of random finite laws, versus the Lean specification; generated discrete programs through the real GoalsAction handlers (argparse Namespace, goal strings ck/kk/P(.>=a)<=?/P(.>a)>=?) compared at n = 0..4 with the exact law of the Lean reference semantics. Expansions: probHermite_eq_heSpec (prob_hermite_poly as coded is He_n, every n), gaussInt_heSpec_succ and gc_integrates_to_one (the Gram-Charlier polynomial factor as modelled has Gaussian integral 1 for every cumulant vector with k2 != 0) are proved about the model; 'reproduces the first k raw moments' and 'Cornish-Fisher is the published one' are a finite table test only (rational cumulant vectors of length <= 6, <= 6 indeterminate cumulants), not a proof.",
+        text="Lean 4 theorems for every finitely supported law and every order, about a hand-written model of utils/statistics.py and of the two tail-bound formulas of cli/actions/goals_action.py: central_correct (raw_moments_to_centrals = E(X-EX)^k for all k >= 1; binomial theorem for k >= 2, the coded special case 0 at k = 1 — finding F8, repaired in /repo d65f6a5, kept as the regression witness central_old_code_counterexample), cumulant_correct / cumulant_recursion_correct (raw_moments_to_cumulants satisfies the moment-cumulant recursion at every order) with cumulant_is_log_mgf (that recursion is M' = K'M in Q[[t]], i.e. K = log M) and kappa_1..4 corollaries, markov / markov_min (every listed bound E(M^k)/a^k and the printed minimum dominate P(M >= a) for M >= 0, a > 0), second_moment_lower ((EM-a)^2/E(M-a)^2 <= P(M > a) when M - a >= 0, Cauchy-Schwarz). Tie to the code is differential and sampled: the two Python functions on random rational/symbolic raw-moment vectors of order <= 10 versus the compiled model and, on moments of random finite laws, versus the Lean specification; generated discrete programs through the real GoalsAction handlers (argparse Namespace, goal strings ck/kk/P(.>=a)<=?/P(.>a)>=?) compared at n = 0..4 with the exact law of the Lean reference semantics. Expansions: probHermite_eq_heSpec (prob_hermite_poly as coded is He_n, every n), gaussInt_heSpec_succ and gc_integrates_to_one (the Gram-Charlier polynomial factor as modelled has Gaussian integral 1 for every cumulant vector with k2 != 0) are proved about the model; 'reproduces the first k raw moments' and 'Cornish-Fisher is the published one' are a finite table test only (rational cumulant vectors of length <= 6, <= 6 indeterminate cumulants), not a proof.",
         design_ref="§4 C11, notes/C11.md",
-        note="Trusted: Lean kernel + propext/Classical.choice/Quot.sound; Lean compiler for polar-model; harness generator/printer; sympy exact evaluation of Polar's closed forms at integers and parsing of the printed --at_n lines; for the expansions sympy polynomial arithmetic, the Gaussian raw-moment recursion and the published Cornish-Fisher table typed into harness/tasks/c11.py. Modelled not verified: the pipeline that produces the raw moments (C01), sympy expand/simplify. Known findings F8 (c1 = mean) and F8b (0/0 lower bound simplified to 1).",
+        note="Trusted: Lean kernel + propext/Classical.choice/Quot.sound; Lean compiler for polar-model; harness generator/printer; sympy exact evaluation of Polar's closed forms at integers and parsing of the printed --at_n lines; for the expansions sympy polynomial arithmetic, the Gaussian raw-moment recursion and the published Cornish-Fisher table typed into harness/tasks/c11.py. Modelled not verified: the pipeline that produces the raw moments (C01), sympy expand/simplify. Known finding F8b (0/0 lower bound simplified to 1); F8 (c1 = mean) is fixed.",
         technique="Lean 4 proof (binomial theorem, moment-cumulant recursion / power-series logarithmic derivative, Markov, Cauchy-Schwarz second-moment bound) + differential correspondence of the real functions and goal handlers against the Lean model and specification; finite table test for the expansions",
     ),
     "C13": dict(
@@ -52,7 +52,7 @@ CHECKS = {
         category="proof",
         text="partial. Proved in Lean 4 (no sorry; axioms propext/Classical.choice/Quot.sound) about a hand-written model of /repo/bayesnet: the flat index table[row + i*rows] of the `table` notation addresses P(child = i | row-th parent combination in itertools.product order); whatever mix of default/table/entries is given, an accepted CPT - and an accepted file (assembleNet) - has exactly one row per parent combination, each of the child's domain size and summing to 1 within the tolerance; the table, the per-entry (any order, any redundancy) and the default+entries notations of one conditional probability function import the same table; Kahn's sort as coded returns a permutation with parents first whenever its final assertion holds (topoOrder_isTopo); for a well-formed network (rows sum to exactly 1) on which the generator does not fail, one iteration of the generated if/elif/else program started in ANY state ends in a full assignment a with probability prod CPT entries (pointwise) and E g = sum_a joint(a) g(a) for every g of the network variables, hence the joint table sums to 1; the ratio E((x*ind)^k)/E(ind) the exact-inference query asks for equals E(X^k | evidence) for k >= 1 (k = 0 is a proved counterexample, finding F32); E(count)(n) of the sampling-time program equals the recurrence countSeq, countSeq q n = (1-(1-q)^(n+1))/q for q != 0 and tends to 1/q for 0 < q <= 1. Tied to the code differentially on seeded BIF files (valid / rows-within-tolerance / reserved names / single and double structural faults / syntax faults) and the repository's .bif files: BifParser().parse_file vs assembleNet (tables, parents, class of the first error); the text of CodeGenerator.generate_code read by the shared reference semantics vs the joint table; the real CLI action (--exact_inference, --sample_time_until) vs enumeration (final value and per-iteration moments n = 0..3). NOT proved: the lark grammar, the random digits appended on name collisions (checked by rule), Python float summation at the tolerance edge (generator keeps 1e-9 away), and Polar's analysis pipeline itself (C01).",
         design_ref="§4 C15; notes/C15.md",
-        note="Trusted: Lean kernel + propext/Classical.choice/Quot.sound; Lean compiler for polar-model; harness/c15gen.py (BIF generator, printer and reader, reader of the generated Polar text), exact-decimal reading of printed floats, sympy exact evaluation of Polar's closed forms at integers, Polar/Sem.lean reference semantics for the law of the generated text. Time-outs of Polar's recurrence builder on networks with many 4-valued parents are counted, never violations. Known findings: F30 (sampling-time limit not taken), F31 (sanitised names that are reserved words), F32 (target power 0), F33 (remainder probability in binary floating point).",
+        note="Trusted: Lean kernel + propext/Classical.choice/Quot.sound; Lean compiler for polar-model; harness/c15gen.py (BIF generator, printer and reader, reader of the generated Polar text), exact-decimal reading of printed floats, sympy exact evaluation of Polar's closed forms at integers, Polar/Sem.lean reference semantics for the law of the generated text. Time-outs of Polar's recurrence builder on networks with many 4-valued parents are counted, never violations. Known findings: F30 (sampling-time limit not taken), F31 (sanitised names that are reserved words), F32 (target power 0); F33/F34 (remainder probability / probability check in binary floating point) were found by this check and are fixed in /repo.",
         technique="Lean 4 proof (mixed-radix index, assembly invariants, invariant proof of Kahn's algorithm, path-probability induction along a topological order, partition of outcome lists, geometric sum and limit) + differential correspondence of parser, code generator and both queries against the Lean model and the enumerated joint law",
     ),
 }
@@ -115,7 +115,59 @@ CHECKS.update({
     ),
 })
 
+CHECKS.update({
+    "C06": dict(
+        category="proof",
+        text="Verified validator, decided per instance for ALL n: every polynomial p of the basis returned by the real InvariantIdeal.compute_basis() (called directly on seeded tuples of exponential-polynomial closed forms over base sets with multiplicative relations, and through GoalsAction/--invariants in-process on README examples, benchmark files and generated programs with E/ck/kk goals) is handed to polar-model invariant_check: Lean builds the exponential polynomial p(f_1(n),..,f_k(n)) from the exact term lists (coef, deg, base over Q or Q(sqrt D) pairs) of the goal closed forms (mulTerms/powTerms/substPoly, like terms merged), computes its formal shape and tests it on the window of that shape starting after the special cases Polar lists. Lean theorems (no sampled step inside): evalK_substPoly (the term list denotes p at the goal values, i.e. MvPolynomial.aeval), evalK_vanish / checkInvariant_sound (no failing index on the window implies p(f(n)) = 0 for every n >= n0; via CFin.expPoly_vanish), checkInvariant_sound_rat, checkInvariantQD_sound_alg (pairs read in any Q-algebra with a square root of D: R, C), checkInvariant_complete (a reported failing n is genuine), c06_ideal_sound (generators vanish under the evaluation homomorphism => the whole ideal does: reduces the Groebner/elimination step to its generators), latticeGen_vanishes_iff / latticeGenInv_vanishes (lattice binomials, also in the inverse-symbol form the code builds, vanish under b_i -> r_i^n iff prod r_i^e_i = 1: soundness reduces to C16). The closed forms are tied to the loop by cfinite_check against Polar's own linear system (all n) and, for generated programs, by the Lean reference semantics (n <= 5). The Groebner step itself is modelled, not verified: the guarantee is for each sampled output, not for the algorithm.",
+        design_ref="§4 C06, §2.4, notes/C0607.md",
+        note="Trusted: Lean kernel + propext/Classical.choice/Quot.sound; Lean compiler for polar-model; harness extraction of term lists from sympy closed forms (own term_shape; guarded by exact re-evaluation against sympy at three points per goal); sympy Poly conversion of the basis; parsing of the printed 'Invariants' section (compared with the computed basis). Closed forms with symbolic parameters are checked at one rational point; closed forms with more than one radicand are counted as unsupported. Known finding F4-C06 (false invariants caused by the truncated exponent lattice, e.g. x = 4^n, y = 8^n -> x - y) is attributed by the C16 signature + an exact check of the lattice rows + a passing re-run with the in-memory integer-kernel repair.",
+        technique="Lean 4 proof of a window validator for polynomial invariants of C-finite sequences + per-instance validation of the real InvariantIdeal / --invariants output",
+    ),
+    "C07": dict(
+        category="proof",
+        text="Proof of the validator; the property itself is decided per instance and up to total degree k (k = max(3, max degree in the reported basis), +2 thorough; recorded per instance) by exact linear algebra inside Lean. polar-model relations_check enumerates all monomials of degree <= k in the goals, evaluates them exactly on the window of the union of their formal shapes (one row per window point and rational coordinate), and checks certificates proposed by the harness: a kernel basis B with an identity block on the free columns and an invertible pivot minor (Lean inverts it and verifies the product), and for each b in B cofactors w.r.t. the basis reported by the real InvariantIdeal (sympy reduced). Lean theorems: checkKernel_sound (B lies in, spans and is independent in ker M), checkMember_sound (polynomial identity => membership in Ideal.span, MPoly -> MvPolynomial), relations_in_kernel (every relation of degree <= k that holds for all n >= n0 is a kernel vector), c07_validator_sound (accepted => every such relation lies in the ideal of the reported basis), c07_no_invariants (empty basis accepted => no non-zero relation of degree <= k). A kernel vector without accepted cofactors is validated as a genuine relation for all n by invariant_check and reported as the witness (vanishes on the sequences, not in the reported ideal; negative membership by a sympy Groebner basis). Polar's Groebner/elimination step is modelled, not verified; completeness beyond degree k is not decided.",
+        design_ref="§4 C07, §2.5, notes/C0607.md",
+        note="Trusted: as C06, plus sympy's Groebner basis for the NEGATIVE membership of a witness (positive memberships are Lean-certified; 'member by Groebner only' is counted separately). Instances with irrational basis coefficients, symbolic parameters, more than 60/130 monomials or windows above 160/400 points are counted as skipped, not decided. Known finding F4-C07 (relations lost through the truncated exponent lattice) attributed as in C06.",
+        technique="Lean 4 proof of kernel / ideal-membership certificate checkers + per-instance certification that the degree-<=k relation space of the goal sequences lies in the reported ideal",
+    ),
+})
+
+CHECKS.update({
+    "C10": dict(
+        category="proof",
+        text="For generated parametric programs both methods of the real tool (differentiating the closed form; DiffRecBuilder's sensitivity recurrences) are evaluated at n=0..3 and compared with the exact derivative d/dp E(M)(n) at the parameter point. The exact derivative comes from the Lean reference semantics: E(M)(n) is a polynomial in p; it is evaluated exactly at 13 parameter values, the degree bound 10 is verified by two spare points, and the derivative of the interpolating polynomial is taken. Partial: the theorems deriv_of_linear_rec / dependentVars_sound of the design are not yet proved.",
+        design_ref="§4 C10",
+        note="Trusted: Lean kernel/compiler (reference semantics), exact Lagrange interpolation in the harness.",
+        technique="Lean reference semantics + exact polynomial interpolation as derivative oracle (differential correspondence)",
+    ),
+    "C18": dict(
+        category="proof",
+        text="Documented-class generator stream (README restrictions only). Safety half: every accepted program's closed forms equal the exact expectations of the Lean reference semantics at n=0..5 and refusals are exceptions. Liveness half: a refusal of a documented-class program is a violation unless attributed to the recorded finding F18 (finite type not inferred for a variable bounded only through its branch conditions), attributed by error call site AND by the in-memory repair 'declare the types' making the same program accepted and correct. Partial: in-class membership is by construction of the generator; termination of the monomial worklist is measured, not proved.",
+        design_ref="§4 C18",
+        note="Trusted: Lean kernel/compiler, the generator's implementation of the README restrictions.",
+        technique="differential correspondence on a documented-class generator stream against a Lean reference semantics",
+    ),
+    "C20": dict(
+        category="proof",
+        text="The same jobs (program, goals, settings) are run each alone in a fresh process, and all in one process in random orders with repetitions and goal permutations, under several PYTHONHASHSEED values; canonical results (exact values of every goal, exactness flags, inferred types up to generated names, error outcomes) must coincide. Partial by nature: CPython hashing, lru_cache internals and object identity are runtime behaviour no executable model exhibits; the state-machine theorems of the design (alpha-independence of the name counter, memo transparency) are not yet proved.",
+        design_ref="§4 C20",
+        note="Trusted: canonicalisation of generated names (harness/tasks/session.py).",
+        technique="history / hash-seed differential testing of the real code (the part of the property a Lean model cannot exhibit); model theorems pending",
+    ),
+})
+
 REASON_PENDING = "check not built yet in this commit (planned, see DESIGN.md §4)"
+
+
+CHECKS.update({
+    "C14": dict(
+        category="proof",
+        text="partial (validator proved, instances validated; not an algorithm proof). Proved in Lean 4 (no sorry; axioms propext/Classical.choice/Quot.sound): for the polynomial fragment of the loop language (unconditional polynomial assignments, probabilistic choice with polynomial weights, draws with constant parameters entering through their specification moments; `while true`) the moment-recurrence operator oneStepPoly (backward substitution) is the conditional expectation of the weighted-outcome semantics (oneStep_sound, via eval_add/eval_mul/eval_subst/eval_normalize proved for the executable polynomials of Polar/Poly.lean); c14_any_solution_ok: ANY Q, k, R passing the decidable polynomial identity oneStepPoly(Q) = k*Q + R satisfy E(Q)(n+1) = k E(Q)(n) + E(R)(n) for all n and all initial states - the nonlinsolve/linsolve search is modelled as 'any solution', completeness is not claimed; c14_invariant_sound / c14_summation_as_coded: the summation formula of solve_rec_by_summing over any commutative ring; system_sound + synth_closed_form_sound: a list of polynomials closed under the operator with matrix A has moment vector A^n v, and an exponential polynomial accepted by cfiniteCheck against that system equals E(Q(state_n)) for EVERY n; c14_loop_equiv: equal closure matrices and initial vectors give equal moment sequences of source and synthesised loop; two counterexample theorems for the recorded findings. Tie to the code is differential and sampled: the real UnsolvInvSynthesizer.synth_inv (k = 1 and symbolic k, the two calls of the CLI action) and SolvLoopSynthesizer.synth_loop run on the 9 suite files, the /repo/benchmarks loops with defective variables and seeded generated loops with one non-linear cycle (9 families: choice, Bernoulli coefficients, random-walk/Normal effective variables, parameters, symbolic initial values); every returned (Q, f) is compared with E(Q(state_n)), n <= 5, under the Lean reference semantics of the source program at a seeded rational point and, with the solver's own k and R captured at get_invariants, certified for all n by op synth_check; every synthesised loop is executed under the reference semantics and compared with the source (retained variables, fresh variable; all degree-2 monomials when the source is deterministic) and certified by op synth_loop_check. Programs with `if` are certified through the one-step polynomial computed by the reference semantics on a symbolic store (not covered by oneStep_sound); the agreement of that computation with oneStepPoly is measured on every fragment instance.",
+        design_ref="§4 C14, §2.4; notes/C14.md",
+        note="Trusted: Lean kernel + propext/Classical.choice/Quot.sound; Lean compiler for polar-model; Polar/Sem.lean as oracle and its run-time (not proved) agreement with the fragment semantics of Polar/Synth.lean; harness generator/printer and conversion of Polar's parsed Program objects; sympy exact evaluation of returned closed forms at integers and term-shape extraction; for continuous draws the moment-transfer argument of DESIGN 2.2. Values and certificates are at one seeded rational point of initial values / parameters / free coefficients per solution. A failed certificate next to exact agreement on the window is counted as inconclusive (the identity is for all pre-states, Polar may use finite-type facts). Known findings F140 (Piecewise initial-value case stripped by solve_rec_by_summing) and F141 (synthesised loop squares the mean of random effective variables) are attributed by an in-memory repair resp. the exact signature of the Lean loop certificate.",
+        technique="Lean 4 proof (expectation transformer = backward substitution; certificate checkers for invariants, closed systems and loop equivalence; C-finite window extension) + differential correspondence of the real synthesisers against the Lean reference semantics",
+    ),
+})
 
 
 def main():
